@@ -2,4 +2,4 @@
 From Coq Require Import Extraction ExtrOcamlBasic.
 Require Import Celma.Text.TextBlockModel Celma.Text.Usage.
 Extraction Language OCaml.
-Extraction "../ocaml/gen/c18_model.ml" eval_case user_arg digest unlines.
+Extraction "../ocaml/gen/c18_model.ml" eval_case eval_case_txt check_texts user_arg digest unlines.
